@@ -345,7 +345,11 @@ def fix_ptm(molecule):
                     for attr in ptm_node:
                         # FIXME: This probably transfers too many attributes.
                         if attr not in ('PTM_atom', 'replace'):
-                            mol_node[attr] = ptm_node[attr]
+                            value = ptm_node[attr]
+                            # Lists (the modifications of the template atom)
+                            # are extended below; do not share them with the
+                            # template or with other atoms.
+                            mol_node[attr] = list(value) if isinstance(value, list) else value
                 if 'replace' in ptm_node:
                     to_replace = ptm_node['replace']
                     for attr_name, val in to_replace.items():
